@@ -1,14 +1,27 @@
 use quote::quote_spanned;
 use syn::{spanned::Spanned, Type};
 
-use crate::common::{r#type::dereference_changed, tools::HashType};
+use crate::common::{
+    r#type::{dereference_changed, ungroup},
+    tools::HashType,
+};
 
 #[inline]
 pub(crate) fn to_hash_type(ty: &Type) -> HashType {
+    // a lifetime that is written out is part of the type, an elided one stands for `'static`
+    let lifetime = if let Type::Reference(reference) = ungroup(ty) {
+        reference.lifetime.clone()
+    } else {
+        None
+    };
+
     let (ty, is_ref) = dereference_changed(ty);
 
     let ty = if is_ref {
-        syn::parse2(quote_spanned!( ty.span() => &'static #ty )).unwrap()
+        match lifetime {
+            Some(lifetime) => syn::parse2(quote_spanned!( ty.span() => &#lifetime #ty )).unwrap(),
+            None => syn::parse2(quote_spanned!( ty.span() => &'static #ty )).unwrap(),
+        }
     } else {
         ty.clone()
     };
